@@ -35,6 +35,8 @@ structure SCState where
   tweeners : List Nat := []
   sounds : List Nat := []
   fxs : List Nat := []
+  /-- the kind of every effect handle ever created (a handle outlives its effect) -/
+  fxKinds : List (Nat × String) := []
   nextTrack : Nat := 0
   nextSend : Nat := 0
   nextClock : Nat := 0
@@ -158,6 +160,15 @@ def parseFxList (st : SCState) (s : String) (next : Nat) : Option (List Fx × Na
     if !rest.isEmpty then none
     else pure (acc.1 ++ [{ id := acc.2, fx := fx, fault := none }], acc.2 + 1)) ([], next)
 
+def fxKindName (e : Fx) : String :=
+  match e.fx with
+  | FxOver.base (.filter _) => "filter" | FxOver.base (.eq _) => "eq"
+  | FxOver.base (.dist _) => "dist" | FxOver.base (.comp _) => "comp"
+  | FxOver.base (.reverb _) => "reverb" | FxOver.base (.vol _) => "vol"
+  | FxOver.base (.pan _) => "pan" | FxOver.delay _ => "delay"
+
+def kindsOf (fx : List Fx) : List (Nat × String) := fx.map (fun e => (e.id, fxKindName e))
+
 /-- `-` or `<send idx>=<V32>,…` (send handle table; an empty table drops the route) -/
 def parseSends (st : SCState) (s : String) : Option (List (Nat × Value Float Float)) :=
   if s == "-" then some [] else do
@@ -227,13 +238,13 @@ def scStep (st : SCState) (tok : List String) : Option (SCState × String) :=
       let vol ← parseV codec32 st0 vol
       let (fx, nfx) ← parseFxList st0 fx 0
       let sy : Sy := System.new scFuel ibs sr vol fx
-      pure ({ st0 with sys := some sy, nextFx := nfx, fxs := fx.map (·.id) }, "ok")
+      pure ({ st0 with sys := some sy, nextFx := nfx, fxs := fx.map (·.id), fxKinds := kindsOf fx }, "ok")
   | none, _ => none
   | some sy, ["send", vol, fx] => do
       let vol ← parseV codec32 st vol
       let (fx, nfx) ← parseFxList st fx st.nextFx
       let id := st.nextSend
-      pure ({ st with sys := some (sy.addSendTrack id vol fx), nextFx := nfx, fxs := st.fxs ++ fx.map (·.id),
+      pure ({ st with sys := some (sy.addSendTrack id vol fx), nextFx := nfx, fxs := st.fxs ++ fx.map (·.id), fxKinds := st.fxKinds ++ kindsOf fx,
                       nextSend := id + 1, sends := st.sends ++ [id] }, "ok")
   | some sy, ["track", parent, vol, persist, sends, fx] => do
       let parent ← int? parent
@@ -246,7 +257,7 @@ def scStep (st : SCState) (tok : List String) : Option (SCState × String) :=
       let cnt := match par with
         | none => sy'.r.mixer.hNumSubTracks
         | some p => ((sy'.r.mixer.findTrack p).map Trk.hNumSubTracks).getD 0
-      pure ({ st with sys := some sy', nextFx := nfx, fxs := st.fxs ++ fx.map (·.id),
+      pure ({ st with sys := some sy', nextFx := nfx, fxs := st.fxs ++ fx.map (·.id), fxKinds := st.fxKinds ++ kindsOf fx,
                       nextTrack := id + 1, tracks := st.tracks ++ [id] }, s!"ok {cnt}")
   | some sy, ["clock", cs] => do
       let cs ← parseCsEq cs
@@ -399,11 +410,8 @@ def scStep (st : SCState) (tok : List String) : Option (SCState × String) :=
         let v32 := parseV codec32 st v
         let v64 := parseV codec64 st v
         -- the parameter name selects the handle method; a name the effect's handle does not have is `nop`
-        let kind : String := match (sy.r.mixer.comps.2.find? (fun e => e.id == id)).map (·.fx) with
-          | some (FxOver.base (.filter _)) => "filter" | some (FxOver.base (.eq _)) => "eq"
-          | some (FxOver.base (.dist _)) => "dist" | some (FxOver.base (.comp _)) => "comp"
-          | some (FxOver.base (.reverb _)) => "reverb" | some (FxOver.base (.vol _)) => "vol"
-          | some (FxOver.base (.pan _)) => "pan" | some (FxOver.delay _) => "delay" | none => "gone"
+        -- (the handle outlives its effect: the kind is the handle's, recorded when it was built)
+        let kind : String := (st.fxKinds.lookup id).getD "gone"
         let c : Option (FxCmd Float) := match kind, param with
           | "filter", "cutoff" => v64.map (fun v => .filterCutoff v tw)
           | "filter", "resonance" => v64.map (fun v => .filterResonance v tw)
